@@ -177,6 +177,8 @@ let run_sqlhist u line =
          | ["setmax"; n] -> Some (SSetMax (nat_of_int (int_of_string n)))
          | ["reopen"] -> Some SReopen
          | ["reopen2"; igs; igd] -> Some (SReopenCfg (parse_bool igs, parse_bool igd))
+         | ["setdups"; b] -> Some (SSetDups (parse_bool b))
+         | ["setspace"; b] -> Some (SSetSpace (parse_bool b))
          | ["save"] | ["append"] -> Some SLen            (* save / append to the database's own path change nothing: run as a len whose answer is not printed *)
          | ("search" :: _) | ("sw" :: _) -> None        (* full-text search: not modelled *)
          | _ -> failwith ("bad sqlhist op: " ^ o) in
@@ -188,7 +190,8 @@ let run_sqlhist u line =
          | SoGet None -> "g:none"
          | SoGet (Some (i, e)) -> Printf.sprintf "g:%d,%s" (int_of_nat i) (fmt_str e)
          | SoNat n -> Printf.sprintf "n:%d" (int_of_nat n)
-         | SoUnit -> "u" in
+         | SoUnit -> "u"
+         | SoRefused -> "x" in
        let rec merge ps qs os = match ps, qs, os with
          | [], _, _ -> []
          | None :: pr, _ :: qr, _ -> "s:?" :: merge pr qr os
